@@ -401,6 +401,10 @@ def gen_pool_entry(rng):
     return (spec, out, utc)
 
 
+class StrSub(str):
+    """a str subclass instance is a legal format spec"""
+
+
 def run_histories(ctx, rng, drv_lines, drv_cases):
     """stream 3: histories of calls on the one process-wide memoiser of `_compile_format`"""
     from loguru._datetime import datetime as ldt
@@ -443,7 +447,18 @@ def run_histories(ctx, rng, drv_lines, drv_cases):
                 dt = mk_dt(f)
                 raw = list(f)
                 fixed = f[:8] + (model_name(f),)
-            got = impl_format(dt, spec)
+            how = rh.below(20)
+            if how == 0:
+                dt = dt.replace(microsecond=dt.microsecond)              # a copy made by the datetime API
+            elif how == 1:
+                dt = ldt.combine(dt.date(), dt.timetz())
+            elif how == 2 and zone is None:
+                try:
+                    dt = dt.astimezone(dt.tzinfo)                        # same zone: same fields, a new object
+                except OverflowError:
+                    pass
+            ctx.stat("history_dt:" + ("replace", "combine", "astimezone")[how] if how < 3 else "history_dt:plain")
+            got = impl_format(dt, StrSub(spec) if rh.chance(6) else spec)
             calls.append([spec] + raw)
             if got[0] == "skip":
                 ctx.stat("skipped_overflow")
@@ -642,6 +657,47 @@ def confirm_replay(ctx):
              % (len(prior), "reproduces in a fresh process" if ok else "still not reproduced in a fresh process"))
     if ok:
         v["what"] += "  [after the %d format() calls this process had made before - state surviving between calls]" % len(prior)
+
+
+def gen_percent_cases(ctx, rng):
+    """stream 6: Python's own `fmt % args` against the model's reading of it (`Datetime.percentFormat`, the function the
+    two-phase theorem `build_render` is about) - on the conversions the module uses: %s, %d, %0Nd, literal text;
+    well-formed cases, one argument too many, a string for an integer conversion"""
+    lines, exps = [], []
+    n = ctx.n(400, 20000)
+    for i in range(n):
+        fmt, vals, toks = "", [], []
+        for _ in range(rng.range(0, 7)):
+            k = rng.below(5)
+            if k == 0:
+                fmt += rng.choice(["-", ":", " ", "é", "UTC", "d", "s", "0", "[x]", "T", ""])
+                continue
+            if k == 1:
+                fmt += "%s"
+                if rng.chance(50):
+                    v = rng.choice(["", "AM", "Monday", "+01:00", "é%", "%d", "UTC+05:30"])
+                else:
+                    v = rng.choice([0, 7, -7, 12, 1234567, -1])
+            else:
+                fmt += "%d" if k == 2 else "%%0%dd" % rng.range(1, 9)
+                v = rng.choice([0, 1, 9, 10, 99, 100, 999, 1000, 9999, 10000, -1, -12, -123456, 2024, 999999,
+                                253402300799, rng.range(-10**7, 10**7)])
+                if rng.chance(5):
+                    v = "x"
+            vals.append(v)
+        if rng.chance(8):
+            vals.append(rng.choice([1, "a"]))
+        try:
+            exp = "ok " + enc(fmt % tuple(vals))
+        except TypeError:
+            exp = "err TypeError"
+        except ValueError:
+            exp = "err ValueError"
+        lines.append("pct " + enc(fmt) + "".join(" " + ("i%d" % v if isinstance(v, int) else "s" + enc(v)) for v in vals))
+        exps.append((exp, fmt, vals))
+        ctx.case(("pct", fmt, tuple(vals)))
+        ctx.stat("percent_format")
+    return lines, exps
 
 
 def run(ctx):
@@ -858,8 +914,16 @@ def run(ctx):
         cal_exp.append("%d %d %d %d %d %d" % (d.year, d.month, d.day, d.weekday(), d.timetuple().tm_yday, z))
     ctx.exhaustive = not ctx.quick
     confirm_replay(ctx)
-    out_all = drv.run(lines + cal_lines + hist_lines)
+    pct_lines, pct_exps = gen_percent_cases(ctx, rng.fork("percent"))
+    out_all = drv.run(lines + cal_lines + hist_lines + pct_lines)
     out = out_all[:len(lines) + len(cal_lines)]
+    badp = 0
+    for (exp, fmt, vals), o in zip(pct_exps, out_all[len(lines) + len(cal_lines) + len(hist_lines):]):
+        if exp != o and badp < 3:
+            badp += 1
+            ctx.broke("correspondence Datetime.percentFormat (Python's % operator)",
+                      "%r %% %r: Python %r, model %r" % (fmt, tuple(vals), exp, o))
+    out_all = out_all[:len(lines) + len(cal_lines) + len(hist_lines)]
     for (dts, gots, calls, zspec), o in zip(hist_cases, out_all[len(lines) + len(cal_lines):]):
         toks = o.split(";")
         if len(toks) != len(dts):
